@@ -14,7 +14,7 @@ META = {
              'equal to the reduced-space knees). distinct = digest(curve, configuration); non-trivial = >= 2 knees reach the mapping stage'),
     'require': {'pipeline-complete': 2500, 'stage-subsequence': 7000, 'final-mapping': 2500, 'nontrivial': 500},
     'scale': {'quick': 1, 'thorough': 36},
-    'quick_cases': 4000, 'thorough_cases': 150000,
+    'quick_cases': 10000, 'thorough_cases': 150000,
     'timeout': {'quick': 900, 'thorough': 5400},
     'assumptions': ['each stage is driven with the public call the demos use; parameters outside a stage\'s documented domain are not generated',
                     'the optional add_points_even tail is only checked for completion and index validity (C14 decides its content)'],
